@@ -531,6 +531,39 @@ fn run_shape(c: &ShapeCase) -> Outcome {
                 }
             }
         }
+        7 => {
+            // a user attribute sub-record whose length is written in 1-, 2- and 5-octet form: the
+            // encoding is kept (certifications hash the wire form)
+            let n = c.n.max(1);
+            let mut sub = vec![9u8];
+            sub.extend(std::iter::repeat(0x5A).take(n - 1));
+            for form in 0..3u8 {
+                let mut b = Vec::new();
+                match form {
+                    0 if n < 192 => b.push(n as u8),
+                    1 if (192..16320).contains(&n) => {
+                        let m = n - 192;
+                        b.push((m >> 8) as u8 + 192);
+                        b.push(m as u8);
+                    }
+                    2 => {
+                        b.push(255);
+                        b.extend_from_slice(&(n as u32).to_be_bytes());
+                    }
+                    _ => continue,
+                }
+                b.extend_from_slice(&sub);
+                fidelity(17, &b, &format!("user attribute sub-record of {n} octets in length form {form}"), Identity::Full, &mut o);
+            }
+            // and a JPEG image attribute in the 5-octet form
+            let mut img = vec![1u8, 0x10, 0x00, 0x01, 0x01];
+            img.extend_from_slice(&[0u8; 12]);
+            img.extend(std::iter::repeat(0xD8).take(n));
+            let mut b = vec![255u8];
+            b.extend_from_slice(&(img.len() as u32).to_be_bytes());
+            b.extend_from_slice(&img);
+            fidelity(17, &b, &format!("image attribute of {} octets with a 5-octet sub-record length", img.len()), Identity::Full, &mut o);
+        }
         2 => {
             // RSA public key with MPI bit counts that do not match (leading zero octets / bits):
             // accepted inputs must keep their value
@@ -919,6 +952,7 @@ pub fn check(ctx: &Ctx) {
             hc.push(ShapeCase { family: 1, n });
         }
         hc.push(ShapeCase { family: 4, n: n.min(60_000) });
+        hc.push(ShapeCase { family: 7, n: n.min(60_000) });
     }
     hc.push(ShapeCase { family: 2, n: 0 });
     for n in [0usize, 1, 6, 7, 191, 192, 193, 255, 256, 8383, 8384, 8385, 65535, 65536, 70_000] {
@@ -933,7 +967,7 @@ pub fn check(ctx: &Ctx) {
     ctx.run_space(
         "length_classes_mutations_composites",
         true,
-        "hashed areas sized by notation data across the subpacket / area / packet length-class boundaries (0..65400); the same subpacket in 1-, 2- and 5-octet length form (encoding must be preserved, signature must still verify); RSA keys with non-canonical MPI bit counts / leading zero octets (value preserved); user id / padding / literal bodies on both sides of 192, 256, 8384, 65536 in new and legacy framing; API mutation sequences on the unhashed area (push, insert, sort, remove) with length queries after every step; signatures built through the API with one subpacket of every constructible kind (every key flag incl. second-octet flags, feature flags, preference lists of 0/1/5 entries, ...), regular and critical; composite objects (SignedSecretKey plain and locked through the API, SignedPublicKey, details, subkeys, users, DetachedSignature): write_len = bytes, re-import equal",
+        "hashed areas sized by notation data across the subpacket / area / packet length-class boundaries (0..65400); the same signature subpacket and the same user attribute sub-record in 1-, 2- and 5-octet length form (encoding must be preserved, signature must still verify); RSA keys with non-canonical MPI bit counts / leading zero octets (value preserved); user id / padding / literal bodies on both sides of 192, 256, 8384, 65536 in new and legacy framing; API mutation sequences on the unhashed area (push, insert, sort, remove) with length queries after every step; signatures built through the API with one subpacket of every constructible kind (every key flag incl. second-octet flags, feature flags, preference lists of 0/1/5 entries, ...), regular and critical; composite objects (SignedSecretKey plain and locked through the API, SignedPublicKey, details, subkeys, users, DetachedSignature): write_len = bytes, re-import equal",
         hc.into_par_iter(),
         run_shape,
     );
